@@ -60,6 +60,8 @@ type c08Case struct {
 	Start string `json:"start,omitempty"`
 	Path  string `json:"path,omitempty"`
 	Node  string `json:"node,omitempty"`
+	// Only: evaluate nothing but the Find of Path from Start (replays of one violation)
+	Only bool `json:"only,omitempty"`
 	// Store: what serves the data tree: "" = recording reference store, "json-reader" / "xml-reader" =
 	// the library's document readers over a rendering of the tree
 	Store string `json:"store,omitempty"`
@@ -496,6 +498,9 @@ func (p *c08) Run(raw json.RawMessage) eng.Result {
 		res.AddCase(sig, fmt.Sprintf("from %q Find(%q): %s", renderSegs(start, ""), path, what), c08Case{Part: "one", Tree: c.Tree, Store: c.Store, Start: renderSegs(start, ""), Path: path})
 	}
 	checkPresent := func(n c08Node, start []c08Seg, path, variant string) {
+		if c.Only && (path != c.Path || renderSegs(start, "") != c.Start) {
+			return
+		}
 		env := newC08Env(c.Tree, c.Store)
 		res.Evals++
 		res.Transitions++
@@ -557,6 +562,7 @@ func (p *c08) Run(raw json.RawMessage) eng.Result {
 		for _, part := range []string{"present", "relative", "absent"} {
 			cc := c
 			cc.Part = part
+			cc.Only = true
 			b, _ := json.Marshal(cc)
 			r := p.Run(b)
 			for _, v := range r.Viols {
@@ -576,7 +582,7 @@ func (p *c08) Run(raw json.RawMessage) eng.Result {
 			checkPresent(n, nil, full, "plain")
 			checkPresent(n, nil, renderSegs(n.segs, m.Ident()), "module-qualified")
 			checkPresent(n, nil, full+"/", "trailing-slash")
-			if n.leaf == nil && len(n.segs) >= 2 {
+			if n.leaf == nil && len(n.segs) >= 2 && (!c.Only || (c.Start == "" && c.Path == full+"?fc.max-node-count=1")) {
 				// a read filter of the request is not applied to the steps the navigation passes through:
 				// a budget of one node does not stop a path of several containers and lists
 				env := newC08Env(c.Tree, c.Store)
@@ -656,6 +662,9 @@ func (p *c08) Run(raw json.RawMessage) eng.Result {
 			probe{"nc/o", "choice-name-as-segment", true}, probe{"nc/o2", "choice-name-as-segment", true}, probe{"nc/o/p", "choice-name-as-segment", true}, probe{"nc/o/p/pl", "choice-name-as-segment", true},
 			probe{"nc/p", "case-name-as-segment", true}, probe{"nc/p/pl", "case-name-as-segment", true}, probe{"nc/o3/t/o3in", "choice-name-as-segment", true})
 		for _, pr := range probes {
+			if c.Only && (pr.path != c.Path || c.Start != "") {
+				continue
+			}
 			env := newC08Env(c.Tree, c.Store)
 			res.Evals++
 			res.Transitions++
